@@ -321,6 +321,27 @@ EXTRA3 = {
 for _k, _v in EXTRA3.items():
     CLAIMED[_k]["text"] = CLAIMED[_k]["text"] + _v
 
+# ---- additions after round 6 (see DESIGN 10.6)
+EXTRA4 = {
+ "C01": " Bond end points are positions in the object's own atom list also when its atoms were handed to another non-copying container; the decoder accepts every map the encoder can write (non-string keys); C02's rejected-write unit is part of this check (a refused write does not keep later records from being stored).",
+ "C02": " put writes the record front to back, each write starting at the then end of file, and cuts nothing (what makes a crash image a prefix).",
+ "C04": " The session body may also be left by an exception that is not an Exception (KeyboardInterrupt): the session still flushes what it can, closes the file and releases the lock.",
+ "C06": " Copy constructors are faithful also for a source whose atoms were handed to another non-copying container; concatenate / | with a single part and with a Conformer as the left operand.",
+ "C07": " Names containing a blank round-trip (partial charges stay in their column).",
+ "C08": " An empty name (empty comment line) round-trips.",
+ "C09": " A writer option given to dump / dumps (e.g. write_header) reaches the class writer unchanged.",
+ "C10": " Every bond-type token yields a bond (declared counts hold on undamaged text); files are opened with strict text decoding (an undecodable byte is an error, never dropped). Bounded stand-in (also in the quick tier): the real readers on a bundled 7-conformer file damaged at every line and with tokens of up to 5000 characters, under a 20 s limit per call (termination).",
+ "C11": " A Substructure moves its own rows also when the parent's atoms were handed to another container. Bounded stand-in (also in the quick tier): dihedral / rotate_dihedral / rotation_matrix_from_vectors on exactly degenerate geometries (coplanar anti / syn chains, exactly and nearly (anti)parallel vectors) and random ones, on the real code.",
+ "C12": " _ml_assemble with a subset of the attachment points (the selected ones are used, the others stay).",
+ "C14": " 'Can be written and serialised': the C07 ensemble writer unit, the C01 ensemble codec unit and the C06 pickle / deepcopy units of ensembles and conformer views are part of this check (shared units).",
+ "C16": " The module-level reference tetrahedron is not modified by a call. Bounded stand-in (also in the quick tier): placement on C / N / O centres with 0-3 neighbours incl. exactly axis-aligned bonds, one call after another in one process (count, finite coordinates, bond length, every new hydrogen away from the neighbours, frame, idempotence).",
+ "C17": " The executable is the path that was given / found (no rewriting through os.path functions, which are uninterpreted); an environment value reaches the command unchanged; the job record is packed without float narrowing (timeouts hash the same in the runner).",
+ "C18": " The thread pool is explored under both schedules (a task runs when submitted / when awaited), so every submitted task must carry its own arguments.",
+ "C19": " The stand-in turns an exception escaping from the library on a valid input into a violation; a stand-in that does not complete is reported undecided.",
+}
+for _k, _v in EXTRA4.items():
+    CLAIMED[_k]["text"] = CLAIMED[_k]["text"] + _v
+
 NOT_APPLICABLE = {
 }
 
